@@ -36,7 +36,7 @@ open MosnVerif.Gen.ProxyPhase MosnVerif.Gen.ProxyReason
 /-- outcome of `ConnectionPool.NewStream` scripted by the label `poolFail` -/
 inductive PoolFail where
   | overflow | connfail
-  deriving DecidableEq, Repr, Inhabited
+  deriving DecidableEq, Repr, Inhabited, Hashable
 
 /-- what route matching + host selection yield for the request -/
 inductive Route where
@@ -44,7 +44,7 @@ inductive Route where
   | noRoute                          -- no route / no route rule / unknown cluster: 404 + NoRouteFound
   | noHost                           -- no healthy upstream at first selection: 502 + NoHealthyUpstream
   | direct (code : Nat) (body : Bool) -- direct response / redirect rule: local reply
-  deriving DecidableEq, Repr, Inhabited
+  deriving DecidableEq, Repr, Inhabited, Hashable
 
 /-- per-request configuration (everything the theorems quantify over besides the schedule) -/
 structure Cfg where
@@ -74,7 +74,7 @@ inductive Ev where
   | ut (k : Nat)                    -- upstream AppendTrailers
   | ur (k : Nat)                    -- live upstream stream k reset by the proxy
   | log (code : Nat) (flags : Nat)  -- access log (runs once inside cleanStream)
-  deriving DecidableEq, Repr, Inhabited
+  deriving DecidableEq, Repr, Inhabited, Hashable
 
 /-- a client stream created by the pool (placeholder with `real = false` for a refused attempt) -/
 structure Stream where
@@ -82,19 +82,19 @@ structure Stream where
   live : Bool        -- BaseStream.state = reset-able (neither reset nor destroyed yet)
   listening : Bool   -- the proxy's upstreamRequest is registered as event listener
   counted : Bool     -- the pool holds a requests slot and an active-gauge unit for it (receiver ≠ nil)
-  deriving DecidableEq, Repr, Inhabited
+  deriving DecidableEq, Repr, Inhabited, Hashable
 
 /-- pending downstream response (`downstreamRespHeaders ≠ nil`, with/without data and trailers) -/
 structure Resp where
   hasData : Bool
   hasTrailers : Bool
-  deriving DecidableEq, Repr, Inhabited
+  deriving DecidableEq, Repr, Inhabited, Hashable
 
 /-- `retryState` -/
 structure RetryState where
   remaining : Nat    -- retiesRemaining
   held : Bool        -- retryResourceHeld
-  deriving DecidableEq, Repr, Inhabited
+  deriving DecidableEq, Repr, Inhabited, Hashable
 
 /-- the state of one downstream request (`downStream` + its upstream side + the ledger + the trace) -/
 structure S where
@@ -135,7 +135,7 @@ structure S where
   downActive : Int := 1             -- DownstreamRequestActive (this stream is counted from newActiveStream on)
   -- observable output
   trace : List Ev := []
-  deriving Repr, Inhabited
+  deriving Repr, Inhabited, BEq, Hashable
 
 /-- the alphabet of schedules -/
 inductive Label where
@@ -148,7 +148,7 @@ inductive Label where
   | globalFire
   | downReset (reason : Reason)
   | connClose
-  deriving DecidableEq, Repr, Inhabited
+  deriving DecidableEq, Repr, Inhabited, Hashable
 
 def emit (s : S) (e : Ev) : S := { s with trace := s.trace ++ [e] }
 
@@ -166,17 +166,20 @@ def setStream (l : List Stream) (k : Nat) (f : Stream → Stream) : List Stream 
   | x :: r, 0 => f x :: r
   | x :: r, k + 1 => x :: setStream r k f
 
-/-- `BaseStream.DestroyStream` of client stream k: listeners' OnDestroyStream (the pool gives back its slot) -/
+def kill (st : Stream) : Stream := { st with live := false }
+def unlisten (st : Stream) : Stream := { st with listening := false }
+
+/-- client stream k exists and is live -/
+def streamLive (s : S) (k : Nat) : Bool := match s.streams[k]? with | some st => st.live | none => false
+/-- client stream k is live and the pool holds a requests slot for it -/
+def streamLiveCounted (s : S) (k : Nat) : Bool := match s.streams[k]? with | some st => st.live && st.counted | none => false
+
+/-- `BaseStream.DestroyStream` of client stream k: listeners' OnDestroyStream (the pool gives back its slot).
+Written as one record update: only `streams`, `requests`, `upActive` change. -/
 def destroyStream (c : Cfg) (s : S) (k : Nat) : S :=
-  match s.streams[k]? with
-  | some st =>
-    if st.live then
-      let s := { s with streams := setStream s.streams k (fun st => { st with live := false }) }
-      if st.counted then
-        { s with requests := Gen.Resource.decrease c.maxRequests s.requests, upActive := s.upActive - 1 }
-      else s
-    else s
-  | none => s
+  { s with streams := if streamLive s k then setStream s.streams k kill else s.streams,
+           requests := if streamLiveCounted s k then Gen.Resource.decrease c.maxRequests s.requests else s.requests,
+           upActive := if streamLiveCounted s k then s.upActive - 1 else s.upActive }
 
 /-- `upstreamRequest.OnResetStream(reason)` (also reached through `OnFailure`) -/
 def upOnResetStream (s : S) (reason : Reason) : S :=
@@ -184,42 +187,61 @@ def upOnResetStream (s : S) (reason : Reason) : S :=
   else if s.upReset then s
   else sendNotify { s with upReset := true, resetReason := reason }
 
-/-- `upstreamRequest.resetStream()` of the current upstream request: remove our listener, reset the client stream -/
-def resetUpstream (c : Cfg) (s : S) : S :=
-  match s.up with
-  | some (some k) =>
-    match s.streams[k]? with
-    | some st =>
-      let s := { s with streams := setStream s.streams k (fun st => { st with listening := false }) }
-      if st.live then destroyStream c (emit s (.ur k)) k else s
-    | none => s
-  | _ => s
+/-- index of the client stream the current upstream request owns (`requestSender ≠ nil`) -/
+def curStream (s : S) : Option Nat := match s.up with | some (some k) => some k | _ => none
 
-/-! ### retry state (regenerated control flow instantiated on `S`) -/
+/-- `upstreamRequest.resetStream()` of the current upstream request: remove our listener, reset the client stream
+(`ur` is recorded only when the stream was still live) -/
+def resetUpstream (c : Cfg) (s : S) : S :=
+  match curStream s with
+  | some k =>
+    let s1 := { s with streams := setStream s.streams k unlisten,
+                       trace := if streamLive s k then s.trace ++ [.ur k] else s.trace }
+    destroyStream c s1 k
+  | none => s
+
+/-! ### retry state (regenerated control flow instantiated on the pair retry state × `Retries().Cur()`) -/
 
 def rsRemaining (s : S) : Nat := match s.rs with | some r => r.remaining | none => 0
 def rsHeld (s : S) : Bool := match s.rs with | some r => r.held | none => false
 
-def retryOps (c : Cfg) (reason : Option Reason) : Gen.ProxyRetry.Ops S where
-  remaining := rsRemaining
-  setRemaining := fun s n => { s with rs := s.rs.map (fun r => { r with remaining := n }) }
-  doRetryCheck := fun s => Gen.ProxyRetry.doRetryCheck c.disableRetry c.retryOn
-    (s.statusVar.map Int.ofNat) (c.codes.map Int.ofNat) reason
-  canCreate := fun s => Gen.Resource.canCreate c.maxRetries s.retries
-  held := rsHeld
-  setHeld := fun s b => { s with rs := s.rs.map (fun r => { r with held := b }) }
-  increase := fun s => { s with retries := Gen.Resource.increase c.maxRetries s.retries }
-  decrease := fun s => { s with retries := Gen.Resource.decrease c.maxRetries s.retries }
+abbrev RSt := RetryState × Int
+
+def retryOps (c : Cfg) (check : Bool) : Gen.ProxyRetry.Ops RSt where
+  remaining := fun p => p.1.remaining
+  setRemaining := fun p n => ({ p.1 with remaining := n }, p.2)
+  doRetryCheck := fun _ => check
+  canCreate := fun p => Gen.Resource.canCreate c.maxRetries p.2
+  held := fun p => p.1.held
+  setHeld := fun p b => ({ p.1 with held := b }, p.2)
+  increase := fun p => (p.1, Gen.Resource.increase c.maxRetries p.2)
+  decrease := fun p => (p.1, Gen.Resource.decrease c.maxRetries p.2)
   countOverflow := id
   countRetry := id
 
-/-- `retryState.reset()` when a retry state exists -/
-def rsReset (c : Cfg) (s : S) : S := Gen.ProxyRetry.reset (retryOps c none) s
+/-- `retryState.doRetryCheck(ctx, headers, reason)` for the current state (status = the x-mosn-status variable) -/
+def retryCheck (c : Cfg) (s : S) (reason : Option Reason) : Bool :=
+  Gen.ProxyRetry.doRetryCheck c.disableRetry c.retryOn (s.statusVar.map Int.ofNat) (c.codes.map Int.ofNat) reason
+
+/-- `retryState.retry(ctx, headers, reason)`; only `rs` and `retries` change -/
+def rsRetry (c : Cfg) (s : S) (reason : Option Reason) : S × Int :=
+  match s.rs with
+  | some r =>
+    let res := Gen.ProxyRetry.retry (retryOps c (retryCheck c s reason)) (r, s.retries)
+    ({ s with rs := some res.1.1, retries := res.1.2 }, res.2)
+  | none => (s, Gen.ProxyRetry.NoRetry)
+
+/-- `retryState.reset()` when a retry state exists; only `rs` and `retries` change -/
+def rsReset (c : Cfg) (s : S) : S :=
+  match s.rs with
+  | some r =>
+    let res := Gen.ProxyRetry.reset (retryOps c false) (r, s.retries)
+    { s with rs := some res.1, retries := res.2 }
+  | none => s
 
 /-- `downStream.cleanUp()` -/
 def cleanUp (c : Cfg) (s : S) : S :=
-  let s := if s.rs.isSome then rsReset c s else s
-  { s with perTry := false, global := false }
+  { rsReset c s with perTry := false, global := false }
 
 /-- `sendHijackReply` / `sendHijackReplyWithBody` -/
 def sendHijack (s : S) (code : Nat) (body : Bool) : S :=
@@ -272,7 +294,7 @@ def onUpstreamResetFinish (c : Cfg) (s : S) (reason : Reason) : S :=
 def onUpstreamReset (c : Cfg) (s : S) : S :=
   let reason := s.resetReason
   if reason != .UpstreamGlobalTimeout && !s.respStarted && s.rs.isSome then
-    let (s, check) := Gen.ProxyRetry.retry (retryOps c (some reason)) s
+    let (s, check) := rsRetry c s (some reason)
     if check == Gen.ProxyRetry.ShouldRetry then
       match setupRetry c s true with
       | (s, true) => { s with upReset := false }
@@ -314,7 +336,7 @@ def onUpstreamHeadersFinish (c : Cfg) (s : S) (eos : Bool) : S :=
 /-- `downStream.onUpstreamHeaders(endStream)` -/
 def onUpstreamHeaders (c : Cfg) (s : S) (eos : Bool) : S :=
   if s.rs.isSome then
-    let (s, check) := Gen.ProxyRetry.retry (retryOps c none) s
+    let (s, check) := rsRetry c s none
     let (s, retried) := if check == Gen.ProxyRetry.ShouldRetry then setupRetry c s eos else (s, false)
     if retried then s
     else
